@@ -45,6 +45,12 @@ def strategy_case(draw: Any) -> Dict[str, Any]:
         case["overdraft"] = draw(inject_overdraft(case))
     txs = model.make_txs(case["rows"])
     case["to"] = draw(gen.window_date(txs)) if draw(st.booleans()) else None
+    case["from"] = None
+    if draw(st.integers(0, 2)) == 0:
+        # balances are "up to the to-date" whatever the from-date is: a from-date must not change a single balance figure
+        first = draw(gen.window_date(txs))
+        if first and (case["to"] is None or first <= case["to"]):
+            case["from"] = first
     return case
 
 
@@ -52,7 +58,7 @@ def strategy(tier: str) -> Any:
     return strategy_case()
 
 
-def balance_violations(out: Outcome, txs: List[model.Tx], dump: Dict[str, Any], to_date: Any) -> None:
+def balance_violations(out: Outcome, txs: List[model.Tx], dump: Dict[str, Any], to_date: Any, rows_only: bool = False) -> None:
     expected = model.account_flows(txs, to_date)
     seen = {}
     for bal in dump["balances"]:
@@ -75,6 +81,8 @@ def balance_violations(out: Outcome, txs: List[model.Tx], dump: Dict[str, Any], 
             return
         if flows.final < 0:
             out.classes.add("negative_final_with_n")
+    if rows_only:
+        return
     by_row = {t.row: t for t in txs}
     lots_total = sum((t.crypto_in for t in txs if t.is_lot and (to_date is None or t.day <= to_date)), Fraction(0))
     consumed = sum((f["amount"] for f in dump["fractions"] if f["lot"] is not None and (to_date is None or by_row[f["ev"]].day <= to_date)), Fraction(0))
@@ -105,7 +113,7 @@ E2E_HIST = gen.GenCfg(min_steps=5, max_steps=16, max_exchanges=3, max_holders=2,
 def e2e_judge(out: Outcome, case: Dict[str, Any], txs: List[model.Tx], dump: Dict[str, Any]) -> None:
     """'Account Balances' table of the report (account rows and per-holder Total rows) against the generated rows."""
     to_date = model.parse_date(case.get("to"))
-    balance_violations(out, txs, dump, to_date)
+    balance_violations(out, txs, dump, to_date, rows_only=bool(case.get("from")))
     if out.violations:
         return
     flows = model.account_flows(txs, to_date)
@@ -127,7 +135,7 @@ def e2e_judge(out: Outcome, case: Dict[str, Any], txs: List[model.Tx], dump: Dic
 def strategy2(tier: str) -> Any:
     """End-to-end tier (rp2v/e2e.py): joint-filing inputs (2 holders x 3 exchanges, transfers between all pairs) through the
     console entry point, with and without a to-date; balances and per-holder totals read back from the report."""
-    return e2e.file_strategy(E2E_HIST, countries=("us", "us", "generic", "ie", "jp"), to_dates=True, flavours=("mixed", "transfer_heavy"))
+    return e2e.file_strategy(E2E_HIST, countries=("us", "us", "generic", "ie", "jp"), to_dates=True, from_dates=True, flavours=("mixed", "transfer_heavy"))
 
 
 def minimize(case: Dict[str, Any], clause: str) -> Dict[str, Any]:
@@ -171,4 +179,13 @@ def evaluate(case: Dict[str, Any]) -> Outcome:
         out.fail("valid_history_rejected", f"{dump['error_type']}: {dump['error'][:300]}")
         return out
     balance_violations(out, txs, dump, to_date)
+    if not out.violations and case.get("from"):
+        out.classes.add("with_from_date")
+        windowed = drive_api.run_case(case, from_date=case["from"], to_date=case.get("to") or "")
+        if not windowed["ok"]:
+            out.fail("from_date_changes_outcome", f"the run succeeds without a from-date and fails with from={case['from']}: {windowed['error_type']}: {windowed['error'][:200]}")
+            return out
+        balance_violations(out, txs, windowed, to_date, rows_only=True)
+        if out.violations:
+            out.violations = [(clause, f"[with from-date {case['from']}] {detail}") for clause, detail in out.violations]
     return out
